@@ -25,6 +25,10 @@ HexHas(hay, needle) == FALSE   \* Java: needle occurs in hay at an even (byte) o
 AesEncBlock(key, blk) == Cipher(key, blk)
 AesDecBlock(key, blk) == InvCipher(key, blk)
 
+\* the key schedules of module Aes, with fast bodies (PrimSelfTest checks them against the TLA+ definitions)
+FastRoundKeys(key) == RoundKeys(key)
+FastDecRoundKeys(key) == DecRoundKeys(key)
+
 \* SP 800-38D 6.3 multiplication in GF(2^128) (bit 0 = most significant bit of byte 1)
 Bit(x, k) == (x[(k \div 8) + 1] \div (2 ^ (7 - (k % 8)))) % 2
 ShiftRight1(v) == [i \in 1..16 |-> (v[i] \div 2) + (IF i > 1 THEN (v[i - 1] % 2) * 128 ELSE 0)]
